@@ -303,6 +303,13 @@ def run(ctx):
     scall = [c for c in d.calls if c.local and c.cname.endswith("Stream::set_content")]
     ctx.ob("R-ORDER", "decompress-through-setter", len(dcall) == 1 and len(scall) == 1 and d.dominates(dcall[0].bb, scall[0].bb) and d.oname(scall[0].args[1], 2) == "data",
            "decompress installs decompressed_content()? through set_content", d.where(), what="Stream::decompress no longer installs the decoded bytes through set_content")
+    filter_rules(ctx, F)
+
+
+def filter_rules(ctx, F):
+    """what the decoders of structural and content streams must get right whatever the caller: dispatch by filter name, predictor
+    parameters and range, PNG reconstruction, LZW and ASCII85 constants and defaults."""
+    dc = F.fn("Stream::decompressed_content")
     # 5. dispatch table
     table = {}
     for c in dc.calls:
@@ -378,3 +385,19 @@ def run(ctx):
     sub33 = any(re.search(r"Sub\([^,()]+,33\)", t) for t in terms + adds)
     ok85 = mul85 and pad84 and sub33
     ctx.ob("R-TABLE", "ascii85-constants", ok85, "base 85, digit = ch - '!', padding digit 84", a85.where(), what="ASCII85 decoding lost one of its constants (base 85, offset 33, padding 84)")
+    # EarlyChange defaults to 1 when the entry (or DecodeParms) is absent: the value that selects the decoder comes out of
+    # `unwrap_or(true)` / `map_or(true, ..)`, not of a combinator whose default is false
+    sel = [c for c in lz.calls if re.search(r"option::Option::<.*>::(unwrap_or|map_or|is_some_and|is_none_or|unwrap_or_default|unwrap_or_else)$", c.fn or "")
+           and lz.lty(c.dest["l"]) == "bool" and not c.dest["p"]]
+    okd = False
+    for c in sel:
+        short = (c.fn or "").rsplit("::", 1)[-1]
+        if short == "unwrap_or":
+            okd = lz.oname(c.args[1], 2) == "1"
+        elif short == "map_or":
+            okd = lz.oname(c.args[1], 2) == "1"
+        elif short == "is_none_or":
+            okd = True
+    ctx.ob("R-TABLE", "lzw-earlychange-default", len(sel) == 1 and okd, "a missing EarlyChange means 1 (early change)", lz.where(),
+           what="decompress_lzw treats a missing /EarlyChange (or missing DecodeParms) as 0: the standard's default is 1, so streams of more than 253 codes written by other producers decode to garbage "
+                "(object and cross-reference streams with /LZWDecode silently lose their objects)")
